@@ -21,3 +21,4 @@ Arguments OReq {Req Resp}.
 Arguments OResp {Req Resp}.
 
 Definition two32 : N := 4294967296.
+Definition two31 : N := 2147483648.
